@@ -94,6 +94,49 @@ def _check_r2_like(rc: RuleCtx, rule: str, fi, val, env, what: str, adjusted: bo
     return ok
 
 
+def helper_contracts(rc: RuleCtx, rule: str, helpers=("smape_points", "linear_r2_points", "linear_fit_points")):
+    """The contracts of the linear_fit helpers another property leans on (its rules treat them as opaque calls):
+    evaluated through every wrapper layer down to metrics.* and compared with the textbook formula of (y, m*x + b)."""
+    res = rc.res
+    from fractions import Fraction
+    for h in helpers:
+        ev = rc.new_eval()
+        pts = ev.point("points", True)
+        ev.len_map = {"points": sym("N"), "x": sym("N"), "y": sym("N")}
+        b_, m_ = ev.symbol("b"), ev.symbol("m")
+        x, y = pts.items
+        renv = {"y": y, "y_hat": x.mul(m_).add(b_), "eps": Rat.const(Fraction(1e-16))}
+        fi = rc.func(f"linear_fit.{h}")
+        if h == "linear_fit_points":
+            _f, out = rc.eval_fn(f"linear_fit.{h}", {"points": pts})
+            x0, xn, y0, yn = (ref("at(x, 0)", {"x": x}), ref("at(x, 0 - 1)", {"x": x}), ref("at(y, 0)", {"y": y}), ref("at(y, 0 - 1)", {"y": y}))
+            nondeg = compare("!=", x0, xn)
+            good = True
+            for g, v in cases_of(out.value()):
+                if not (isinstance(v, Vec) and len(v.items) == 2 and all(isinstance(i, Rat) for i in v.items)):
+                    good = False
+                    continue
+                b, m = v.items
+                if not (m.mul(x0).add(b).equals(y0) and m.mul(xn).add(b).equals(yn)) and g_sat(g_and(g, nondeg)):
+                    good = False
+            if good:
+                res.ok(rule, fi.qualname, "the endpoint line passes through the first and the last point")
+            else:
+                res.violation(rule, fi.module, fi.name, fi.node, "linear_fit_points is not the line through the first and last point (the straightness test relies on it)",
+                              _short(out.value(), 160), "m*x0+b == y0 and m*xn+b == yn", construct=f"helper {h}")
+            continue
+        call = {"points": pts, "coef": Vec([b_, m_])}
+        if h == "linear_r2_points":
+            _f, out = rc.eval_fn(f"linear_fit.{h}", call)
+            _check_r2_like(rc, rule, fi, out.value(), renv, f"linear_fit.{h}", adjusted=False)
+            continue
+        metric = POINTS_WRAPPERS[h]
+        metric = WRAPPERS.get(metric, (metric,))[0]
+        _f, out = rc.eval_fn(f"linear_fit.{h}", call)
+        want = ref(METRIC_REFS[metric], renv)
+        rc.expect_equal(rule, fi, out.value(), want, f"linear_fit.{h} == {metric}(y, m*x+b) (the helper the property's test relies on)")
+
+
 def run(ctx):
     rc = RuleCtx(ctx)
     res = ctx.result
